@@ -227,6 +227,11 @@ class ConnWorld(object):
     def __init__(self, plan, seed, choices=None, horizon=120.0, step_cap=400000, net=None):
         self.plan = plan
         self.sim = Sim(seed, strategy=plan.get('strategy'), step_cap=step_cap, horizon=horizon, choices=choices)
+        self.sim.time_jump_p = plan.get('time_jump_p', 0.0)
+        if plan.get('stall'):
+            self.sim.line_stall = tuple(plan['stall'])
+        if plan.get('focus_stall'):
+            self.sim.focus_stall = tuple(plan['focus_stall'])
         nk = dict(net or {})
         self.net = SimNet(self.sim, **nk)
         seams.install_run(self.sim, self.net)
